@@ -255,6 +255,74 @@ def render_program(cases, idxs, lite=False, ctxmix=False, customlex=False):
     return "\n".join(parts)
 
 
+
+# ---- C07 (second program kind): results that KEEP views into the caller's buffer ----------------------------------------
+def gen_c07v_texts(seed, n):
+    import random
+    rnd = random.Random(seed * 31 + 7)
+    out = []
+    for _ in range(n):
+        k = rnd.choice([1, 1, 2, 3, 5, 8])
+        words = ["".join(rnd.choice("abcxyz019") for _ in range(rnd.choice([1, 2, 3, 7]))) for _ in range(k)]
+        text = ""
+        for i, w in enumerate(words):
+            if i:
+                text += rnd.choice([",", ", ", " ,", ",\n"])
+            text += w
+        text = rnd.choice(["", " ", "\n"]) + text + rnd.choice(["", " ", "  "])
+        bad = rnd.random() < 0.2
+        if bad:
+            text += rnd.choice([",", ",,a", " a b", "!"])
+        out.append({"text": text, "words": words, "ok": not bad})
+    return out
+
+
+def render_c07v(texts):
+    parts = [PRELUDE, r"""
+namespace vv {
+struct Words { std::string_view first, last; size_t n = 0; };      // the result keeps views of the first and the last lexeme
+constexpr char wpat[] = "[a-z0-9]+";
+constexpr regex_term<wpat> word("word");
+constexpr nterm<Words> list("list");
+struct One { constexpr Words operator()(std::string_view w) const { return Words{w, w, 1}; } };
+struct More { constexpr Words operator()(Words l, char, std::string_view w) const { l.last = w; ++l.n; return l; } };
+constexpr parser p(list, terms(word, ','), nterms(list), rules(list(word) >= One{}, list(list, ',', word) >= More{}));
+// is the whole compile-time evaluation (parse + reading the views the result keeps) a constant expression?  its value / -1
+template<class T, int V = T::eval()> constexpr int probe_v(int) { return V; }
+template<class T> constexpr int probe_v(...) { return -1; }
+template<class R> constexpr bool good(const R& r, std::string_view whole, std::string_view first, std::string_view last, size_t n)
+{
+    if (!r.has_value()) return false;
+    const Words& w = r.value();
+    bool inside = w.first.data() >= whole.data() && w.first.data() + w.first.size() <= whole.data() + whole.size() && w.last.data() >= whole.data() && w.last.data() + w.last.size() <= whole.data() + whole.size();
+    return inside && w.first == first && w.last == last && w.n == n;
+}
+// 2 = value with views of the right content inside the caller's buffer, 1 = value but wrong/dangling views, 0 = empty, 3 = threw
+template<class B> int rt(const B& b, std::string_view first, std::string_view last, size_t n)
+{
+    try { utils::no_stream ns; auto r = p.parse(parse_options{}, b, ns); if (!r.has_value()) return 0; return good(r, b.get_view(b.begin(), b.end()), first, last, n) ? 2 : 1; }
+    catch (const std::exception&) { return 3; }
+}
+template<class B> int rt_short(const B& b, std::string_view first, std::string_view last, size_t n)      // parse(buffer): the shortest overload
+{
+    try { auto r = p.parse(b); if (!r.has_value()) return 0; return good(r, b.get_view(b.begin(), b.end()), first, last, n) ? 2 : 1; }
+    catch (const std::exception&) { return 3; }
+}
+}
+"""]
+    body = ["int main() { hh::big_stack([] {"]
+    for k, t in enumerate(texts):
+        b = t["text"].encode()
+        first = t["words"][0]; last = t["words"][-1]; n = len(t["words"])
+        parts.append("namespace vv { struct c%d { static constexpr cstring_buffer buf{%s}; static constexpr int eval() { utils::no_stream ns; auto r = p.parse(parse_options{}, buf, ns); "
+                     "return !r.has_value() ? 0 : good(r, buf.get_view(buf.begin(), buf.end()), %s, %s, %d) ? 2 : 1; } }; }"
+                     % (k, cstr(b), cxx_str(first), cxx_str(last), n))
+        body.append('  { static const char lit[] = %s; cstring_buffer cb(lit); string_buffer sb(std::string(lit, %d)); std::string own(lit, %d); string_view_buffer sv{std::string_view(own)};'
+                    ' std::printf("VIEW %d ce=%%d cs=%%d sb=%%d sv=%%d cs0=%%d sb0=%%d\\n", vv::probe_v<vv::c%d>(0), vv::rt(cb, %s, %s, %d), vv::rt(sb, %s, %s, %d), vv::rt(sv, %s, %s, %d), vv::rt_short(cb, %s, %s, %d), vv::rt_short(sb, %s, %s, %d)); }'
+                    % (cstr(b), len(b), len(b), k, k, cxx_str(first), cxx_str(last), n, cxx_str(first), cxx_str(last), n, cxx_str(first), cxx_str(last), n, cxx_str(first), cxx_str(last), n, cxx_str(first), cxx_str(last), n))
+    body.append("}); return 0; }")
+    return "\n".join(parts + body)
+
 # ---- C17b: rules that mention symbols which are not declared ------------------------------------------------------
 def render_c17b(cases):
     parts = [PRELUDE]
@@ -445,7 +513,7 @@ def parse_case_lines(out):
 
 
 def emit_cases(seed, n, work, spelling=True, only_class=None, named_terms=False, always_spelled=False):
-    ok, eg, log = BUILD.ensure("e_grammar", REPO)
+    ok, eg, log = BUILD.ensure_emitter("e_grammar", REPO)
     if not ok:
         return None, log
     out = os.path.join(work, "emit.json")
@@ -468,7 +536,7 @@ def run(pid, tier, seed, work, viol_dir, known_ids=()):
     t0 = time.time()
     excluded = {}
     if pid == "C03":
-        ok, er, log = BUILD.ensure("e_regex", REPO)
+        ok, er, log = BUILD.ensure_emitter("e_regex", REPO)
         if not ok:
             print("HARNESS-BUILD-FAILED engine=e_regex (emit)")
             print(log[-3000:])
@@ -597,6 +665,50 @@ def run(pid, tier, seed, work, viol_dir, known_ids=()):
                         lab("term-kind:" + {"c": "char", "s": "string", "r": "regex(named)", "R": "regex(unnamed)", "t": "typed(char)", "T": "typed(named regex)"}[sp["kind"]])
         for case in cases[:3]:
             samples.append({"grammar": case["grammar"]["text"], "class": case["class"], "inputs": [i["text"] for i in case["inputs"]][:8]})
+        if pid == "C07":
+            # results that KEEP views into the caller's buffer: the same agreement (constant evaluation / three run-time buffers / two overloads), plus
+            # "the views point into the caller's buffer and read the right text"
+            texts = gen_c07v_texts(seed, {"quick": 24, "thorough": 200}[tier])
+            vsrc = os.path.join(work, "views.cpp")
+            open(vsrc, "w").write(render_c07v(texts))
+            for cxx in ("g++", "clang++"):
+                res = compile_and_run(vsrc, cxx)
+                if not res["compiled"]:
+                    if res.get("timeout"):
+                        notes.append("compile of views.cpp with %s hit the time ceiling (inconclusive)" % cxx)
+                        continue
+                    vp = os.path.join(viol_dir, "C07_compile_views_%s.json" % cxx.replace("+", "x"))
+                    json.dump({"check": pid, "kind": "program07v", "compiler": cxx, "source": open(vsrc).read(), "what": "generated program does not compile", "log": res["log"], "texts": texts}, open(vp, "w"))
+                    errs = [l for l in res["log"].splitlines() if "error" in l][:1]
+                    violations.append(("a program whose parse result keeps string_view lexemes of the caller's buffer does not compile with %s: %s" % (cxx, errs[0][:200] if errs else ""), vp))
+                    continue
+                got = {}
+                for ln in res["out"].splitlines():
+                    if ln.startswith("VIEW "):
+                        w = ln.split()
+                        got[int(w[1])] = {f.split("=")[0]: int(f.split("=")[1]) for f in w[2:]}
+                for k, t in enumerate(texts):
+                    evaluations += 1
+                    want = 2 if t["ok"] else 0
+                    d = got.get(k)
+                    what = None
+                    if d is None:
+                        what = "program produced no result line (crashed?) rc=%s" % res.get("rc")
+                    elif d["ce"] == -1:
+                        what = "parsing a static cstring_buffer and reading the lexeme views the result keeps is not a constant expression (%s)" % cxx
+                    else:
+                        for tag, name in (("ce", "constant evaluation"), ("cs", "cstring_buffer"), ("sb", "string_buffer"), ("sv", "string_view_buffer"), ("cs0", "parse(cstring_buffer)"), ("sb0", "parse(string_buffer)")):
+                            if d[tag] != want:
+                                what = "%s: %s (%s)" % (name, {0: "a text of the language was rejected", 1: "the lexeme views kept by the result do not point into the caller's buffer / read other text", 2: "a text outside the language was accepted", 3: "parse threw"}[d[tag]], cxx)
+                                break
+                    if what:
+                        vp = os.path.join(viol_dir, "C07_views_%s_%s.json" % (cxx.replace("+", "x"), hashlib.sha1(t["text"].encode()).hexdigest()[:10]))
+                        json.dump({"check": pid, "kind": "program07v", "compiler": cxx, "what": what, "observed": d, "texts": [t], "source": render_c07v([t])}, open(vp, "w"))
+                        violations.append((what, vp))
+                        continue
+                    if len(t["words"]) >= 2 or not t["ok"]:
+                        nontrivial.add(("views", t["text"]))
+                lab("views-program:" + cxx)
     elif pid == "C03":
         # regex::expr<P> constructed at compile time: constexpr match("lit") via probe, run-time match through two buffers
         pats = cases
@@ -773,6 +885,16 @@ def replay(path):
         print(res["log"][-1500:])
         return 1
     print(res["out"][:3000])
+    if d["kind"] == "program07v":
+        bad = 0
+        for ln in res["out"].splitlines():
+            if ln.startswith("VIEW "):
+                w = ln.split(); k = int(w[1]); vals = {f.split("=")[0]: int(f.split("=")[1]) for f in w[2:]}
+                want = 2 if d["texts"][k]["ok"] else 0
+                if any(v != want for v in vals.values()):
+                    bad += 1
+        print("REPLAY %s %s" % (d["check"], "FAIL" if bad else "PASS"))
+        return 1 if bad else 0
     if d["kind"] == "program03":
         key = d.get("key")
         for ln in res["out"].splitlines():
